@@ -12,6 +12,8 @@ FILLS = {
     "ff": lambda i: 0xFF,
     "inc": lambda i: (i + 1) & 0xFF,
     "55aa": lambda i: 0x55 if i % 2 == 0 else 0xAA,
+    "ws": lambda i: (0x20, 0x0A, 0x0D, 0x09)[i % 4],  # whitespace / line ends (strip()-style normalisation)
+    "tail0": lambda i: 0x41 if i < 2 else 0x00,  # trailing NULs
 }
 AMPLIFY_LIMIT = 20000
 
@@ -76,10 +78,10 @@ def space_b_block(clsid, ents, quick, restricted_log=None):
     modes = modes_of(clsid, ents)
     if quick:
         lengths = sorted({0, 1, 2, max(nom - 1, 0), nom, nom + 1, nom + 16})
-        fills = ("inc", "ff")
+        fills = ("inc", "ff", "tail0")
     else:
         lengths = list(range(0, nom + 17))
-        fills = ("00", "ff", "inc", "55aa")
+        fills = ("00", "ff", "inc", "55aa", "ws", "tail0")
     boundary = sorted({0, 1, nom}) if quick else sorted({0, 1, 2, 3, max(nom - 1, 0), nom, nom + 1, nom + 16})
     for fill in fills:
         for mode in modes:
